@@ -185,9 +185,14 @@ def law(law, runner, vals, **kw):
         return True, "ok"
     if law == "map-select":
         m = ct.MapType({ct.StringType("a"): I(vals["m_v0"]), ct.StringType("b"): I(vals["m_v1"])})
-        exp = {"m.a": vals["m_v0"], "m.b": vals["m_v1"], "m['a']": vals["m_v0"], "has(m.a)": True, "has(m.zz)": False, "m.zz": "error"}
+        exp = {"m.a": vals["m_v0"], "m.b": vals["m_v1"], "m['a']": vals["m_v0"], "has(m.a)": True, "has(m.zz)": False, "m.zz": "error",
+               "nz.n == null": True, "nz['n'] == null": True, "has(nz.n)": True, "nz.f == false": True, "has(nz.f)": True, "nz.z == 0": True, "has(nz.z)": True,
+               "nz.e == ''": True, "has(nz.e)": True, "{'k': null}.k == null": True, "has({'k': null}.k)": True, "nz.l == []": True, "has(nz.l)": True, "has(nz.missing)": False,
+               "'n' in nz": True, "size(nz) == 5": True}
+        S_ = ct.StringType
+        nz = ct.MapType({S_("n"): None, S_("f"): ct.BoolType(False), S_("z"): I(0), S_("e"): S_(""), S_("l"): ct.ListType([])})
         for src, e in exp.items():
-            kd, r = _run(src, runner, {"m": m})
+            kd, r = _run(src, runner, {"m": m, "nz": nz})
             if e == "error":
                 if kd != "error":
                     return fail(f"`{src}` must be an error, got {kd} {r!r}")
